@@ -695,6 +695,14 @@ class Eval:
         'core::num::next_power_of_two': lambda a: 1 if a <= 1 else 1 << (a - 1).bit_length(),
         'alloc::vec::from_elem': lambda x, n: ('vec', x, n),
     }
+    # the crate's integer newtypes are transparent
+    for _ty in ('StateID', 'PatternID', 'SmallIndex'):
+        PURE['util::primitives::%s::new' % _ty] = lambda x: ('Ok', x)
+        PURE['util::primitives::%s::new_unchecked' % _ty] = lambda x: x
+        PURE['util::primitives::%s::must' % _ty] = lambda x: x
+        PURE['util::primitives::%s::one_more' % _ty] = lambda x: x + 1
+        for _m in ('as_usize', 'as_u32', 'as_u64', 'as_i32'):
+            PURE['util::primitives::%s::%s' % (_ty, _m)] = lambda x: x
 
     def __init__(self, body, atoms, maxsteps=2000):
         self.b, self.atoms, self.maxsteps = body, atoms, maxsteps
@@ -768,12 +776,18 @@ class Eval:
             raise Unsupported('call %s' % nm)
         if k == 'f' and t[1][0] == 'dc':
             v = self.val(t[1][1])
-            if isinstance(v, tuple) and v[0] == 'Some':
+            if isinstance(v, tuple) and v[0] in ('Some', 'Ok') and t[1][2] == v[0]:
                 return v[1]
+            if isinstance(v, tuple) and v[0] in ('Some', 'Ok', 'None', 'Err'):
+                raise EvalPanic('payload of %s read as %s' % (v[0], t[1][2]))
+        if k == 'upd':
+            return self.val(t[1])
         if k == 'discr':
             v = self.val(t[1])
             if isinstance(v, tuple) and v[0] in ('Some', 'None'):
                 return 1 if v[0] == 'Some' else 0
+            if isinstance(v, tuple) and v[0] in ('Ok', 'Err'):
+                return 0 if v[0] == 'Ok' else 1
         raise Unsupported(tstr(t0, 80))
 
     def run(self):
